@@ -1,4 +1,5 @@
 """C05 — transaction (de)serialisation is a lossless round trip; CompactSize is canonical and total on [0, 2^64-1]."""
+import copy
 from hypothesis import strategies as st
 
 from vf import gen_tx
@@ -94,6 +95,19 @@ def check_tx(case):
         }
         re1 = attempt(gen_tx.build_with_lib, bits.tx, ptx, txref.ser_witness)
         f.expect(not raised(re1) and re1 == raw, f"reser/ne-original/{prim}", repr(re1)[:120])
+        # (d) the caller owns what it was handed: editing that result must not change what the next parse returns
+        if not f:
+            snap = copy.deepcopy(d)
+            for v in d.values():
+                if isinstance(v, list):
+                    for x in v:
+                        if isinstance(x, (dict, list)):
+                            x.clear()
+                    v.clear()
+            d.clear()
+            res2 = attempt(bits.tx.tx_deser, raw + trailing)
+            ok2 = (not raised(res2)) and res2[0] == snap and res2[1] == trailing
+            f.expect(ok2, f"deser/differs-after-caller-edited-earlier-result/{prim}", repr(res2)[:200])
     except (KeyError, TypeError, IndexError, ValueError) as e:
         f.add(f"deser/malformed-result/{prim}", repr(e))
     return cls, f
@@ -187,10 +201,8 @@ def enum_corpus(tier):
 
 
 def _targets(tier):
-    prof = "full" if tier == "quick" else "big"
-    req = ["nt:n_in>=253", "nt:n_out>=253", "nt:script>=253", "nt:wit-empty-stack", "nt:wit-item>=253", "nt:wit-item-0", "nt:trailing", "nt:outs>=5-all-empty-scripts", "nt:script-3000..65533", "nt:wit-item-3000..65533"]
-    if tier == "thorough":
-        req.append("nt:script>=65536")
+    prof = "big"  # lengths of 65536 and more belong to the quick tier too (the 5-byte CompactSize form inside a transaction)
+    req = ["nt:n_in>=253", "nt:n_out>=253", "nt:script>=253", "nt:wit-empty-stack", "nt:wit-item>=253", "nt:wit-item-0", "nt:trailing", "nt:outs>=5-all-empty-scripts", "nt:script-3000..65533", "nt:wit-item-3000..65533", "nt:script>=65536", "nt:wit-item>=65536"]
     return [
         Target("tx-roundtrip", check_tx, strategy=lambda tier: tx_cases(prof), budget={"quick": 4000, "thorough": 100000}, required=req),
         Target("fixed-corpus", check_tx, enumerate_=enum_corpus, shards=1),
